@@ -347,8 +347,10 @@ pub fn gen_world(r: &mut Rng, o: &GenOpts) -> World {
             }
             _ => {}
         }
-        let serde_rename = if o.renames && kind != Kind::Const && r.chance(1, 7) {
-            Some(format!("{name}Wire"))
+        // wire names are per crate (two crates may both define `Config` and rename it differently)
+        let reused_name = names.contains(&name);
+        let serde_rename = if o.renames && kind != Kind::Const && (r.chance(1, 7) || (reused_name && r.chance(1, 2))) {
+            Some(format!("{name}Wire{}", if reused_name { format!("{crate_ix}") } else { String::new() }))
         } else {
             None
         };
@@ -570,13 +572,17 @@ impl World {
             ));
             tree.push(SrcFile::text(&format!("{}/src/notes.txt", self.crates[0].dir), vec!["#[typeshare] not rust\n".into()]));
             tree.push(SrcFile::text(&format!("{}/src/plain.rs", self.crates[0].dir), vec!["pub fn nothing_shared() {}\n".into()]));
+            tree.push(SrcFile::text(&format!("{}/src/empty.rs", self.crates[0].dir), vec![]));
+            tree.push(SrcFile::text(&format!("{}/src/tiny.rs", self.crates[0].dir), vec!["// x\n".into()]));
         }
         // a source file shared between two crates through a relative symlink
         if self.symlinks && self.crates.len() > 1 {
             let mut lr = Rng::new(self.style ^ 0x51AB);
             let from = lr.below(self.crates.len() as u64) as usize;
             let to = (from + 1 + lr.below(self.crates.len() as u64 - 1) as usize) % self.crates.len();
-            let target = format!("{}/{}", self.crates[from].dir, self.crates[from].files[0]);
+            // any file may be the target: a module with items, or a tiny / empty one
+            let texts: Vec<&SrcFile> = tree.iter().filter(|f| f.kind == FileKind::Text && f.path.ends_with(".rs") && f.path.starts_with(&format!("{}/", self.crates[from].dir))).collect();
+            let target = if texts.is_empty() { format!("{}/{}", self.crates[from].dir, self.crates[from].files[0]) } else { lr.pick(&texts).path.clone() };
             let link = format!("{}/src/shared_link.rs", self.crates[to].dir);
             if !tree.iter().any(|f| f.path == link) {
                 tree.push(SrcFile { path: link, kind: FileKind::SymlinkToFile, chunks: vec![target], raw_hex: String::new() });
